@@ -63,6 +63,17 @@ func newMgrStack(upstreams [][2]string, remote map[string][]string) *mgrStack {
 	}
 	sort.Strings(ids)
 	for _, id := range ids {
+		// a node whose id starts with "g" is learned the way the server learns
+		// nodes: through gossip entries that the real syncer turns into routing
+		// table updates
+		if strings.HasPrefix(id, "g") {
+			es := []gossip.Entry{{Key: "proxy_addr", Value: "p-" + id, Version: 1}, {Key: "admin_addr", Value: "a-" + id, Version: 2}}
+			for i, e := range remote[id] {
+				es = append(es, gossip.Entry{Key: "endpoint:" + e, Value: "1", Version: uint64(3 + i)})
+			}
+			st.gs.ApplyDelta(gossip.VDelta{{ID: id, Addr: "10.0.0.7:7000", Entries: es}})
+			continue
+		}
 		eps := map[string]int{}
 		for _, e := range remote[id] {
 			// "<endpoint>:0": the node lists the endpoint with a zero count
@@ -202,6 +213,8 @@ func (in *mgrInst) Enabled() []mgrEvent {
 		// a peer that remembers an earlier incarnation of this node (same id,
 		// restarted without leaving) sends that state back
 		evs = append(evs, mgrEvent{Kind: "echo"})
+		// the periodic compaction of the node's own gossip state
+		evs = append(evs, mgrEvent{Kind: "compact"})
 	}
 	if in.sys.Selects {
 		for _, e := range in.sys.Endpoints {
@@ -253,6 +266,8 @@ func (in *mgrInst) step(e mgrEvent, check bool) (vs []mc.Violation) {
 			in.st.mgr.RemoveConn(in.st.ups[e.U])
 		case "select":
 			su, sok = in.st.mgr.Select(e.E, e.Allow)
+		case "compact":
+			in.st.gs.CompactLocal(1)
 		case "echo":
 			in.st.gs.ApplyDigest(gossip.VDigest{{ID: "local", Addr: "10.0.0.1:7000", Version: 5000}})
 			in.st.gs.ApplyDelta(gossip.VDelta{{ID: "local", Addr: "10.0.0.1:7000", Entries: []gossip.Entry{
@@ -290,6 +305,23 @@ func (in *mgrInst) step(e mgrEvent, check bool) (vs []mc.Violation) {
 	if check && prop == "C05" {
 		if sig, msg := in.st.consistent(in.truth()); sig != "" {
 			bad(sig, "after %s: %s", e, msg)
+		}
+		// "advertises to the cluster": a peer that takes the node's whole state
+		// now (a joiner) is told exactly the registered endpoints
+		obs := gossip.VNewClusterState("nP", "10.0.0.9:7000", nopFD{}, sharedGossipMetrics, nopWatcher{})
+		syncObserver(in.st.gs, obs)
+		told := map[string]int{}
+		if ns, ok := obs.Node("local"); ok {
+			for _, en := range ns.Entries {
+				if strings.HasPrefix(en.Key, "endpoint:") && !en.Deleted {
+					n := 0
+					fmt.Sscanf(en.Value, "%d", &n)
+					told[strings.TrimPrefix(en.Key, "endpoint:")] = n
+				}
+			}
+		}
+		if a, b := countsStr(in.truth()), countsStr(told); a != b {
+			bad("peer-told-differently-from-registered", "after %s: registered {%s} but a peer taking the node's state now is told {%s}", e, a, b)
 		}
 	}
 	return vs
